@@ -38,6 +38,7 @@ type genCfg struct {
 	ineqOften   bool
 	propWrites  bool // scripts may write their (copied) step properties
 	errorNode   bool // the spec may define its own (non-terminal) "error" node
+	errName     bool // the spec may name its automatic error node differently (Spec.ErrorNode)
 	multiCand   bool // patterns that match in several ways, with guards that accept some candidates (outcome may be arbitrary)
 	nativeOnly  bool // every action and guard is native (no interpreter, no goroutines)
 	inPlace     bool // native guards may work directly on the bindings they are handed
@@ -299,6 +300,10 @@ func genSpec(c *sim.Ctx, cfg genCfg) *ref.Spec {
 		}
 	case 3:
 		s.NoAutoErrorNode = c.Bool("noauto")
+	}
+	if cfg.errName && c.Chance(1, 4, "errname") {
+		// the automatic terminal node goes under another name; failures still lead to "error"
+		s.ErrorNode = "oops"
 	}
 	target := func() string {
 		switch c.Intn(12, "target") {
@@ -643,6 +648,7 @@ func compile(s *ref.Spec) (*core.Spec, error) {
 		ActionErrorBranches: s.ActionErrorBranches,
 		ActionErrorNode:     s.ActionErrorNode,
 		NoAutoErrorNode:     s.NoAutoErrorNode,
+		ErrorNode:           s.ErrorNode,
 	}
 	act := func(a *ref.Action) (core.Action, *core.ActionSource) {
 		if a == nil {
